@@ -333,6 +333,9 @@ fn lockstep_case(s: &Spec, cutoff: usize, seed: u64, state: Vec<bool>, beta: f64
     if sum_g > 0 {
         stat(&format!("lockstep{}_hb{}_runs_with_operators", tag, opts.hb), 1);
     }
+    if tag == "-long" {
+        println!("STAT lockstep_long_final_n_beta{}_kpre{}_hb{} {}", beta as u64, kpre, opts.hb, QmcStepper::get_n(&g));
+    }
     // energies through the public accessor on the two averages
     let (eg, eq) = if kpost > 0 {
         (
@@ -572,6 +575,25 @@ fn main() {
         }
         stat("lockstep_small_units_runs", sm);
         stat("lockstep_small_units_same", sm_same);
+        // LONG-STRING stream: 8 spins, beta in the hundreds (several thousand operators), tiny initial cutoff;
+        // conversion before the first step and after 30 steps; same lock-step oracle (state, n, cutoff, ops equal
+        // after every step, energies differ by N*Gamma).  Growth rules that only differ for long strings show here.
+        let long_betas: &[f64] = if a.thorough { &[300.0, 500.0] } else { &[180.0] };
+        let t0 = std::time::Instant::now();
+        let (mut lg, mut lg_same) = (0, 0);
+        for beta in long_betas {
+            for (kpre, hb) in [(0usize, 0u8), (30, 0), (0, 2)] {
+                let nv = 8;
+                let s = Spec { edges: (0..nv).map(|a| ((a, (a + 1) % nv), if a % 3 == 0 { -1.0 } else { 1.0 })).collect(), gamma: 1.0, h: 0.0, nv };
+                let state: Vec<bool> = (0..nv).map(|_| gen.coin()).collect();
+                let same = lockstep_case(&s, 1 + gen.below(3) as usize, gen.next(), state, *beta, kpre, 40, Opts { rvb: false, hb, split: false }, true, "-long");
+                lg += 1;
+                lg_same += same as usize;
+            }
+        }
+        stat("lockstep_long_runs", lg);
+        stat("lockstep_long_same", lg_same);
+        println!("STAT lockstep_long_millis {}", t0.elapsed().as_millis());
         // F4 witness: fixed input, h != 0
         let w = Spec { edges: vec![((0, 1), 1.0)], gamma: 1.0, h: 0.5, nv: 2 };
         lockstep_case(&w, 2, 7, vec![false, false], 1.0, 0, 20, Opts { rvb: false, hb: 0, split: false }, true, "");
